@@ -51,7 +51,7 @@ FLOORS = {'*': {**{f'{k}:{s}': 5 for k in ('oas31', 'oas30') for s in STACKS},
                 **{f'openrpc:{s}': 5 for s in ('default', 'pydantic', 'docstring')},
                 'shared-errors-list': 10, 'prefix-on-first-only': 5, 'prefix-on-later-only': 5, 'worker:oas31': 20, 'worker:oas30': 20,
                 'worker:openrpc': 20, 'isolation-comparisons': 100, 'repeat-generations': 100, 'view-method': 10,
-                'status-map-errors': 10, 'fingerprints-compared': 100, 'reused-spec-comparisons': 50, 'bystander-specs': 50, 'same-name-on-two-endpoints': 10}}
+                'status-map-errors': 10, 'fingerprints-compared': 100, 'reused-spec-comparisons': 50, 'bystander-specs': 50, 'same-name-on-two-endpoints': 10, 'names-differing-only-in-separators': 5}}
 
 PENDING = []          # documents for the meta-schema worker: (key, kind, doc, case)
 
@@ -444,7 +444,13 @@ def gen(ctx):
         prefixes = [rng.choice(['', '', '/sub']) for _ in methods]
         if '' not in prefixes:
             prefixes[0] = ''
-        if n >= 2 and rng.random() < 0.25:
+        if n >= 2 and rng.random() < 0.15:
+            # two names that differ only in a separator
+            stem = methods[0]['name'].replace('.', '_')
+            methods[0]['name'], methods[1]['name'] = f'grp.{stem}', f'grp_{stem}'
+            methods[0]['fname'], methods[1]['fname'] = f'grp_dot_{stem}', f'grp_us_{stem}'
+            ctx.hit('names-differing-only-in-separators')
+        elif n >= 2 and rng.random() < 0.25:
             # a versioned API: the same exposed name on two endpoints, different signatures
             methods[1]['name'] = methods[0]['name']
             methods[1]['fname'] = methods[0]['name'].replace('.', '_') + '_v2'
@@ -470,6 +476,11 @@ def gen(ctx):
         [base('m0', view=True), base('m1', view=True, ctx='ctx')],
         [base('m0', doc={'params': 'bare', 'returns': 'rtype'}), base('m1', doc={'params': True, 'returns': 'rtype'})],
         [base('m0', doc={'params': 'bare'})],
+        # names that differ only in their separators are different methods with their own components
+        [dict(base('user.get'), params=[['user_id', 'PK', 'int', False]], ret='Thing'),
+         dict(base('user_get'), params=[['name', 'PK', 'str', False], ['strict', 'KO', 'bool', True]], ret='List[Other]'),
+         dict(base('user-get'), params=[['q', 'PK', 'Inner', False]], ret='int')],
+        [dict(base('a.b_c'), params=[['x', 'PK', 'Thing', False]]), dict(base('a_b.c'), params=[['y', 'PK', 'Other', False]], ret='str')],
         [dict(base('m0', annotate={'examples': 2, 'params_schema': True}), params=[['ref', 'PK', 'int', False], ['a', 'PK', 'Thing', True]]),
          dict(base('m1', annotate={'params_schema': True, 'result_schema': True}), params=[['a', 'PK', 'int', False], ['ref', 'KO', 'str', True]])],
         [base('m0', annotate={'tags': ['t1', 't2'], 'examples': 2, 'servers': True, 'security': True}), base('m1', annotate={'tags': ['t1', 't2']})],
